@@ -38,7 +38,7 @@ ASSUMPTIONS = [
     "block-level opaque tags may split the inline context they sit in; only the order S1 < body < S2 and the absence "
     "of interpreted nodes between the sentinels are required",
 ]
-REQUIRED = {"pairs_checked": 300, "template_borne_checked": 300, "triples_checked": 2000, "roundtrips_checked": 500, "ctx_template-arg": 50, "ctx_cell": 50, "ctx_list": 50,
+REQUIRED = {"occurrence_checks": 1500, "pairs_checked": 300, "template_borne_checked": 300, "triples_checked": 2000, "roundtrips_checked": 500, "ctx_template-arg": 50, "ctx_cell": 50, "ctx_list": 50,
             "tag_nowiki": 100, "tag_pre": 100, "tag_math": 100, "tag_source": 100, "tag_syntaxhighlight": 100,
             "tag_timeline": 100}
 LEVEL_TEXT = ("Exploration: 3e4 (quick) / 2e6 (thorough) generated (tag, body, context) documents parsed by the real "
@@ -87,7 +87,8 @@ def plan(tier, seed):
     per = 1800 if tier == "quick" else 120000
     return [{"kind": "triples", "shard": i, "count": per, "seed": seed} for i in range(n)] + \
            [{"kind": "pairs", "shard": i, "count": per // 3, "seed": seed} for i in range(n)] + \
-           [{"kind": "roundtrip", "shard": i, "count": per // 3, "seed": seed} for i in range(n)]
+           [{"kind": "roundtrip", "shard": i, "count": per // 3, "seed": seed} for i in range(n)] + \
+           [{"kind": "adjacency", "shard": i, "n": 4, "seed": seed, "random": 300 if tier == "quick" else 30000} for i in range(4)]
 
 
 def leaves(root):
@@ -202,6 +203,8 @@ def parse(text):
     from mwlib.parser.refine.uparser import parse_string
     from ..gen.db import SynthDB
     pages = {"pass": "{{{1}}}", "passn": "{{{v}}}", "t": "TEMPLATE-T-EXPANDED"}
+    for k, (tb, _) in MULTI.items():
+        pages[k] = tb
     for k, (tg, b) in OPAQUE_TEMPLATES.items():
         pages[k] = "<%s>%s</%s>" % (tg, b, tg)
     db = SynthDB(pages, "en")
@@ -396,10 +399,118 @@ def judge_stretch(tag, body, lv, left, right):
     return judge(tag, body, out)
 
 
+GLUE = ["", " ", "\n", "http://example.org/a", "[http://example.org/a", "https://e.org/p?q=1", "//e.org/x", "ftp://e.org/f",
+        "mailto:a@b.org", "[[Link]]", "[[Link|", "''", "'''", "x", "é", "&amp;", "<b>", "</b>", "<br/>", "{{t}}", "|", "=", ":", ";",
+        "*", "#", "{|\n|", "\n|}", "==", "<ref>", "</ref>", "]", "]]", "__TOC__", "<!-- c -->", "~~~", "-"]
+# (a pipe after a region in a table cell or link makes the region part of an attribute / target: not body text)
+GLUE_INLINE = [g for g in GLUE if "|" not in g]
+MULTI = {   # template -> (body, how many times the argument reaches the page)
+    "twice": ("{{{1}}} and {{{1}}}", 2),
+    "thrice": ("{{{1}}} [[L|{{{1}}}]] ''{{{1}}}''", 3),
+    "twicen": ("{{{v}}}{{{v}}}", 2),
+    "nested2": ("{{twice|{{{1}}}}}", 2),
+}
+
+
+def tree_strings(root):
+    """every string the tree holds: (node class, attribute, value)"""
+    out = []
+    st = [root]
+    while st:
+        n = st.pop()
+        for attr in ("caption", "target", "full_target", "url", "math", "tagname"):
+            v = getattr(n, attr, None)
+            if isinstance(v, str) and v:
+                out.append((type(n).__name__, attr, v))
+        vl = getattr(n, "vlist", None)
+        if isinstance(vl, dict):
+            for k, v in vl.items():
+                if isinstance(v, str):
+                    out.append((type(n).__name__, "vlist", v))
+        st.extend(n.children)
+    return out
+
+
+def check_occurrences(R, kind, text, marks):
+    """marks: {unique body word: expected number of occurrences in the tree's text}; no marker may leak"""
+    case = {"shape": kind, "text": text, "marks": marks}
+    R.breadcrumb(json.dumps(case))
+    try:
+        tree = parse(text)
+    except Exception as e:
+        R.violation("raises:" + exc_key(e), "parse raised %s" % type(e).__name__, case, exc_detail(e))
+        return
+    strs = tree_strings(tree)
+    R.count("occurrence_checks")
+    R.case(h64(text), True)
+    for cls, attr, v in strs:
+        if "\x7f" in v or "UNIQ-" in v or "-QINU" in v:
+            R.violation("marker-leaked:%s:%s.%s" % (kind, cls, attr), "a protection marker reached the tree: %s.%s = %r" % (cls, attr, v[:80]), case)
+            return
+    alltext = "\x00".join(v for cls, attr, v in strs if attr == "caption")
+    for word, n in marks.items():
+        got = alltext.count(word)
+        if got != n:
+            R.violation("region-%s:%s" % ("lost" if got < n else "duplicated", kind),
+                        "body %r should reach the tree %d time(s), found %d" % (word, n, got), case)
+            return
+
+
+def adjacency_cases(rnd, nrandom):
+    k = 0
+    for tag in TAGS:
+        for pre_ in GLUE:
+            for post in ("", " ", "x", "]", " label]", "\n", "</ref>", "''"):
+                k += 1
+                body = "''Bq%dz'' [[n]]" % k
+                yield "glued", "%s<%s>%s</%s>%s tail" % (pre_, tag, body, tag, post), {body: 1}
+    for tname, (tbody, times) in MULTI.items():
+        for tag in TAGS:
+            k += 1
+            body = "''Bq%dz'' {{t}}" % k
+            arg = "<%s>%s</%s>" % (tag, body, tag)
+            call = "{{%s|v=%s}}" % (tname, arg) if tname == "twicen" else "{{%s|%s}}" % (tname, arg)
+            yield "argument-used-%d-times" % times, "a %s b" % call, {body: times}
+            yield "argument-used-%d-times" % times, "* %s\n* <%s>''Zq%dz''</%s>" % (call, tag, k, tag), {body: times, "''Zq%dz''" % k: 1}
+    for tag in TAGS:
+        for tag2 in TAGS:
+            k += 1
+            b1, b2, b3 = "''Bq%da''" % k, "''Bq%db''" % k, "''Bq%dc''" % k
+            yield "inside-ref-then-again", "x<ref>r <%s>%s</%s></ref> y <%s>%s</%s> z<ref name=\"q\"><%s>%s</%s></ref>" % (
+                tag, b1, tag, tag2, b2, tag2, tag, b3, tag), {b1: 1, b2: 1, b3: 1}
+    for _ in range(nrandom):
+        k += 1
+        parts, marks = [], {}
+        for j in range(rnd.randint(2, 5)):
+            tag = rnd.choice(TAGS)
+            body = "''Bq%d_%dz''" % (k, j)
+            parts.append(rnd.choice(GLUE_INLINE))
+            x = rnd.random()
+            region = "<%s>%s</%s>" % (tag, body, tag)
+            if x < 0.2:
+                tn = rnd.choice(sorted(MULTI))
+                region = "{{%s|v=%s}}" % (tn, region) if tn == "twicen" else "{{%s|%s}}" % (tn, region)
+                marks[body] = MULTI[tn][1]
+            elif x < 0.35:
+                region = "<ref>%s</ref>" % region
+                marks[body] = 1
+            else:
+                marks[body] = 1
+            parts.append(region)
+        parts.append(rnd.choice(GLUE_INLINE))
+        yield "random-adjacency", "".join(parts), marks
+
+
 def run_shard(desc, R):
     import logging
     logging.disable(logging.CRITICAL)
     rnd = random.Random("C09:%s:%s:%s" % (desc["kind"], desc["seed"], desc["shard"]))
+    if desc["kind"] == "adjacency":
+        r2 = random.Random("C09:adjacency:%s" % desc["seed"])
+        for i, (kind, text, marks) in enumerate(adjacency_cases(r2, desc["random"] * desc["n"])):
+            if i % desc["n"] == desc["shard"]:
+                check_occurrences(R, kind, text, marks)
+        return
     if desc["kind"] == "pairs":
         for _ in range(desc["count"]):
             check_pair(R, rnd)
@@ -427,6 +538,9 @@ def replay(case):
             if res:
                 out.append(("%s:%s" % (case["kind"], res[0]), res[1], None))
         return out
+    if "shape" in case:
+        check_occurrences(R, case["shape"], case["text"], case["marks"])
+        return [(v["key"], v["what"], None) for v in R.violations]
     if "roundtrip" in case:
         from mwlib.utils.uniq import Uniquifier
         u = Uniquifier()
